@@ -80,7 +80,7 @@ CHECK_TEXT["C14"] = {
              "for every name and operand and have no external/unsafe ingredient, so the same type and key give the same id in every process; "
              "StableTypeID<->u128, u128<->Compact128 and the QueryID accessors are lossless, so two queries share a slot only if both 128-bit components "
              "coincide. DISTINCTNESS of ids for distinct types is a collision property that no sound contract can state; it is decided only on a bounded, "
-             "generated universe of 6478 types (every leaf type with an Identifiable impl) and a crafted family of type names, evaluated on the real crate in two "
+             "generated universe of 6865 types (every leaf type with an Identifiable impl) and a crafted family of type names, evaluated on the real crate in two "
              "separate processes (labelled bounded). read_u64_le is proved to return exactly the little-endian value of its block (no byte of a name is dropped or "
              "overlaid before mixing). Because a query id is the stable hash of the query key and a store slot is addressed by type id, the check also re-establishes "
              "C13's framing of the key stream (incl. write_usize/isize full width: Verus + Kani) and the column addressing of both backends' write paths (C11 units), "
